@@ -6,9 +6,11 @@
 //
 // op lines (answer `-` = not compared with the model):
 //
-//	reset fee=0|1 [mb=N]            new case: two fresh nodes on the same genesis (4 users x 1000)          -> ok
-//	dtx <id> from=u [prog=P] [pad=N] in=.. out=..   define a transaction (pre-executes $xvkv program P on the
-//	                                producer's live state, builds, signs) without submitting it            -> -
+//	reset fee=0|1 [mb=N] [award=A] [decay=G:N/D]   new case: two fresh nodes on the same genesis (4 users x 1000;
+//	                                fee=1: award A (default 50), multiplied by N/D every G blocks)           -> ok
+//	dtx <id> from=u [prog=P] [timer=H:P] [pad=N] in=.. out=..   define a transaction (pre-executes the $xvkv program
+//	                                P, or $timer_task.Add "at height H run P", on the producer's live state, builds,
+//	                                signs) without submitting it                                           -> -
 //	atx <id> ...                    dtx + State.DoTx on the producer                                         -> -
 //	submit <id>                     State.DoTx of a defined transaction                                      -> -
 //	fblock txs=<ids>                a peer block (miner m1) with the given defined transactions; replica and
@@ -28,12 +30,28 @@
 //	pack                            the real packBlock (VerifPackBlock) on the producer, ConfirmBlock +
 //	                                PlayForMiner there, the replica receives the block; observables compared -> -
 //	rawsort nodes=.. e=a>b,..       the real TopSortDFS on an arbitrary graph (6 runs)                        -> cyclic|ok sizes=..
+//	award <h>                       the real GenesisBlock.CalcAward(h)                                       -> amount
+//	height <h>                      claim: the producer's trunk height                                       -> ok|differ
+//	task <H> <id> c=<h> | p         claim: a timer task of the producer's live state, registered by a
+//	                                transaction confirmed at height h / still pending                       -> ok|differ|absent
+//	mine [trunc=K] [fresh=1] [pow=1]  one round of the REAL Miner.mining on the producer (hook VerifMining) against a
+//	                                scripted consensus whose ProcessBeforeMiner names the block K below the tip as
+//	                                truncate target: truncateForMiner, packBlock (timer tx, pool prefix, award),
+//	                                confirmBlockForMiner (ConfirmBlock, PlayForMiner), broadcast; the block as
+//	                                broadcast goes to the replica; after a truncation (or fresh=1) a fresh node
+//	                                replays the producer's trunk from genesis; pow=1: the consensus re-stamps the
+//	                                block in CalculateBlock (nonce, id, signature)          -> h=<height> award=<amt> timer=<task ids|->
 //
 // Oracle keys (impl-side, independent of the model): order-violates-dependency, order-violates-antidependency,
 // order-not-permutation, graph-misses-dependency, graph-misses-antidependency, graph-admits-unreplayable-order, order-not-replayable,
 // packed-block-not-replayable, replica-state-differs, award-not-first, award-invalid, award-count, fee-wrong,
 // block-verify-failed, block-<stage>-failed, producer-confirm-failed, producer-play-failed, pack-failed,
-// pool-membership, pool-order-failed, topsort-cycle-flag-wrong, topsort-unstable, panic.
+// pool-membership, pool-order-failed, topsort-cycle-flag-wrong, topsort-unstable, panic; of the miner round:
+// mining-failed, block-not-broadcast, mined-block-not-tip, consensus-not-notified, block-height-wrong, award-invalid
+// (the schedule of the genesis configuration at the block's height, computed by the harness in exact arithmetic),
+// award-schedule-wrong, timer-tx-missing, timer-tx-spurious, timer-tx-wrong, timer-tx-not-second, timer-tx-count,
+// timer-tx-cites-later-transaction, timer-tx-overwrites-version-read-later (known findings), mined-block-not-replayable,
+// trunk-not-replayable, fresh-replica-state-differs, trunk-unreadable.
 package main
 
 import (
@@ -73,6 +91,7 @@ func main() {
 	runLines := func(lines []string) {
 		for _, c := range splitCases(lines) {
 			for _, l := range c {
+				out.Begin(l)
 				out.Emit(l, ex.exec(l))
 			}
 			out.Case(fmt.Sprint(c), true)
@@ -130,7 +149,9 @@ func main() {
 	}
 	out.Count(fmt.Sprintf("replica-replays-total:%d", ex.replays))
 	out.Stats.Rule = fmt.Sprintf("%d random graphs (1-9 nodes, duplicate edges, back edges, self loops, child-only nodes) through the real TopSortDFS, 6 runs each; "+
-		"%d generated pools on two real nodes (producer + replica that never sees the pending transactions), fee and no-fee genesis: a packed setup block, then 2-12 pending transactions "+
+		"%d generated pools on two real nodes (producer + replica that never sees the pending transactions), fee and no-fee genesis, award schedules with and without decay (dyadic ratios, gaps 1-3): "+
+		"blocks are produced by the real Miner.mining (scripted consensus; 1 in 5 final rounds after a truncation of 1..height-1 blocks requested through ProcessBeforeMiner; 1 in 8 by packBlock alone), "+
+		"timer tasks registered by $timer_task.Add (due while pending, due after confirmation, on keys the pool does / does not touch); a mined setup block, 0-2 filler blocks, then 2-12 pending transactions "+
 		"from motifs (token chains, diamonds, read-only sharers of a key + writer/deleter incl. never-written keys, key-version chains, contract txs moving tokens, fee payers, "+
 		"refused stale submissions, transactions evicted by a conflicting peer block), %d pools above the 0.8 MB block limit; per pool: graph vs model, >=40 GetUnconfirmedTx samples, "+
 		"every order the implementation's graph allows (all of them when few, else a random subset) and the real packBlock output are formatted as producer blocks and handed to a fresh "+
